@@ -55,10 +55,29 @@ PROPS["C05"] = dict(
                 "directly on histogram(..., rev=True) for enumerated and seeded data sets, both engines compared for identity.",
     limit_quick=60)
 
+PROPS["C06"] = dict(
+    level="proof", needs_ext=True,
+    technique="contract-based deductive verification of match/match_multi/unique/rem_dup (own VC generator over the Python ast, z3) "
+              "modulo numpy primitive contracts; bounded run-time evaluation of the same contracts as labelled stand-in",
+    level_text="match (array, string-tagged and scalar arguments, presorted on and off), match_multi, unique (indices and values) and "
+               "rem_dup are verified against contracts transcribed from the statement: returned pairs are equal, the second index "
+               "list is strictly ascending and contains exactly the positions whose value occurs in the first array, repeated first "
+               "arrays raise ValueError and only they do; the de-duplication helpers return exactly one index per distinct value, "
+               "rem_dup the one carrying the largest flag. Loops carry inductive invariants; all obligations are discharged by z3.",
+    level_note="Trusted: esvc, z3, CPython's ast; numpy contracts argsort (permutation ordering the values), searchsorted (insertion "
+               "point; sortedness of the searched array is an obligation at the call site), unique (sorted distinct values; as many "
+               "as inputs iff the inputs are pairwise distinct - pigeonhole, assumed), where, fancy indexing, in-place sort; elements "
+               "are modelled as mathematical integers under their total order (str/bytes carry a tag that selects the string branch); "
+               "NaN and mixed-dtype promotion inside numpy are outside the model (mixed dtypes are covered by the bounded layer only).",
+    explanation="Proved: match (2 element models x presorted), scalar variants, match_multi, unique, rem_dup. Bounded (labelled): the "
+                "same contracts evaluated on the real functions over enumerated and seeded arrays of ints (signed, unsigned, large), "
+                "floats, byte and unicode strings.",
+    limit_quick=60)
+
 for _k in range(1, 21):
     PROPS.setdefault("C%02d" % _k, dict(level="other", needs_ext=True, explanation="see DESIGN.md section 8"))
 
 
-CLAIMED = {"C20", "C02", "C05"}
+CLAIMED = {"C20", "C02", "C05", "C06"}
 NOT_APPLICABLE = {("C%02d" % k): "check not built yet (implementation in progress; plan in DESIGN.md section 8)"
                   for k in range(1, 21) if ("C%02d" % k) not in CLAIMED}
